@@ -138,19 +138,19 @@ def pduSessionEstablishmentRequest (psi : UInt8) : Res Msg := do
 def pduSessionModificationRequest (psi : UInt8) : Res Msg :=
   gsmHeader (initMsg layout_PDUSessionModificationRequest) idx_PDUSessionModificationRequest_ExtendedProtocolDiscriminator
     idx_PDUSessionModificationRequest_PDUSessionID idx_PDUSessionModificationRequest_PTI
-    idx_PDUSessionModificationRequest_PDUSESSIONMODIFICATIONREQUESTMessageIdentity psi 0 0xC9
+    idx_PDUSessionModificationRequest_PDUSESSIONMODIFICATIONREQUESTMessageIdentity psi 1 0xC9
 
 /-- `GetPduSessionReleaseRequest` -/
 def pduSessionReleaseRequest (psi : UInt8) : Res Msg :=
   gsmHeader (initMsg layout_PDUSessionReleaseRequest) idx_PDUSessionReleaseRequest_ExtendedProtocolDiscriminator
     idx_PDUSessionReleaseRequest_PDUSessionID idx_PDUSessionReleaseRequest_PTI
-    idx_PDUSessionReleaseRequest_PDUSESSIONRELEASEREQUESTMessageIdentity psi 0 0xD1
+    idx_PDUSessionReleaseRequest_PDUSESSIONRELEASEREQUESTMessageIdentity psi 1 0xD1
 
 /-- `GetPduSessionReleaseComplete` -/
 def pduSessionReleaseComplete (psi : UInt8) : Res Msg :=
   gsmHeader (initMsg layout_PDUSessionReleaseComplete) idx_PDUSessionReleaseComplete_ExtendedProtocolDiscriminator
     idx_PDUSessionReleaseComplete_PDUSessionID idx_PDUSessionReleaseComplete_PTI
-    idx_PDUSessionReleaseComplete_PDUSESSIONRELEASECOMPLETEMessageIdentity psi 0 0xD4
+    idx_PDUSessionReleaseComplete_PDUSESSIONRELEASECOMPLETEMessageIdentity psi 1 0xD4
 
 /-- `*models.Snssai`: `Sst int32` (already truncated to `uint8`) and the octets `hex.DecodeString(Sd)` yields -/
 structure Snssai where
